@@ -14,7 +14,7 @@ def run(ctx):
     ctx.pmap(lambda r: ctx.run(b, [r[0], r[1], nparts]), runs)
     rule = ('every operation x operand-shape combination of PlanarVector/Vector/SymmetricDyad/Dyad (dot, cross, dyadic, +,-,scaling both '
             'sides, /, compound forms, trace, determinant, transpose, cofactors, adjugate, inverse, IsSymmetric, the 8 matrix-vector / '
-            'matrix-matrix product overloads, embeddings) x 3 numeric types. Integer grids, demanded exactly against an index-loop '
+            'matrix-matrix product overloads, embeddings, and the 22 overloads that take a Direction / PlanarDirection operand, each compared with the same call on the vector the direction stores) x 3 numeric types. Integer grids, demanded exactly against an index-loop '
             'reference in exact integer arithmetic: all pairs of {-3..3}^3 vectors and {-3..3}^2 planar vectors; all 15625 symmetric '
             'dyads over {-2..2}^6; all 19683 dyads over {-1,0,1}^9; SymmetricDyad*SymmetricDyad for all pairs over {-1,0,1}^6; mixed '
             'products against all {0,1}^9 dyads; Dyad*Dyad for all pairs of {0,1}^9 and {-1,0,1}^9 x basis/generic (thorough: all '
